@@ -277,7 +277,11 @@ def search(ctx, libdir, only=None):
         ctx.case(key=("order", p["name"], p.get("sign", 1), p.get("system_seed")), nontrivial=p.get("judged") != ["floor"],
                  sample={k: p[k] for k in ("name", "errors", "slopes", "pmin") if k in p} if len(ctx.samples) < 5 else None)
     ctx.extra.setdefault("input_distribution", {}).update({"searcher:" + k: v for k, v in sorted(dist.items())})
-    for f in res["failures"][:5]:
+    seen = set()
+    for f in res["failures"]:
+        if f["name"] in seen or len(seen) >= 12:
+            continue
+        seen.add(f["name"])
         ctx.violation("order:" + f["name"], dict(f, seed=ctx.seed, tier=ctx.tier), True,
                       "measured convergence order below the advertised one at lattice point %s" % f["name"])
     return res
